@@ -32,8 +32,16 @@ type Case struct {
 var mkRe = regexp.MustCompile(`(?m)^MK (\d+) (\S+) (\d+) (\d+)$`)
 
 type stats struct {
-	marks int
-	out   string
+	marks        int
+	first, later int // marks that are / are not the first call on their source line
+	out          string
+}
+
+// firstCallOfLine reports whether mk(<id>, is the first call written on its source line.
+func firstCallOfLine(src, id, line string) bool {
+	l := lineOf(src, line)
+	i := strings.Index(l, "mk("+id+",")
+	return i >= 0 && !strings.Contains(l[:i], "(")
 }
 
 func compile(src string) (string, *vk.Verdict) {
@@ -83,6 +91,13 @@ func evalGo(srcs []string) ([]*vk.Verdict, []stats, error) {
 		}
 		for k := 0; k < n && vs[i] == nil; k++ {
 			a, b := rm[k], xm[k]
+			if a[1] == b[1] && !firstCallOfLine(srcs[i], a[1], a[3]) {
+				// the property speaks of the FIRST call of a statement: later calls on the same source
+				// line may legitimately land on other output lines (e.g. after a function literal)
+				st[i].later++
+				continue
+			}
+			st[i].first++
 			switch {
 			case a[1] != b[1]:
 				vs[i] = vk.Bad("behaviour-differs", "mark sequence differs at #%d: reference id %s, xgo id %s (this is C01's business)", k, a[1], b[1])
@@ -127,6 +142,8 @@ func lineOf(src, n string) string {
 	return ""
 }
 
+var tagCallRe = regexp.MustCompile(`\bt[sblm]?\("(g\d+)"`)
+
 var traceRe = regexp.MustCompile(`(g\d+)@([^:,\s]+):(\d+)`)
 
 // evalSugar: each traced tag must report the line where it is written.
@@ -157,9 +174,15 @@ func evalSugar(srcs []string) ([]*vk.Verdict, []stats, error) {
 		}
 		want := map[string]int{}
 		for ln, l := range strings.Split(src, "\n") {
-			for _, m := range regexp.MustCompile(`"(g\d+)"`).FindAllStringSubmatch(l, -1) {
-				if _, dup := want[m[1]]; !dup {
-					want[m[1]] = ln + 1
+			for _, m := range tagCallRe.FindAllStringSubmatchIndex(l, -1) {
+				tag := l[m[2]:m[3]]
+				// only the first call written on a line is in the property's scope
+				if strings.Contains(l[:m[0]], "(") {
+					st[i].later++
+					continue
+				}
+				if _, dup := want[tag]; !dup {
+					want[tag] = ln + 1
 				}
 			}
 		}
@@ -171,6 +194,9 @@ func evalSugar(srcs []string) ([]*vk.Verdict, []stats, error) {
 			if m[2] != "bar.xgo" {
 				vs[i] = vk.Bad("file-name", "traced call %s reports file %q, want bar.xgo", m[1], m[2])
 				break
+			}
+			if _, ok := want[m[1]]; ok {
+				st[i].first++
 			}
 			if w, ok := want[m[1]]; ok && w != got {
 				vs[i] = vk.Bad("line-differs", "traced call %s is written on line %d of bar.xgo but reports line %d: %q", m[1], w, got, lineOf(src, fmt.Sprint(w)))
@@ -200,9 +226,11 @@ func handle(t *testing.T, kind string, srcs []string, vs []*vk.Verdict, st []sta
 	r := vk.R
 	failed := false
 	for i, v := range vs {
-		r.Case(st[i].marks >= 20, srcs[i])
+		r.Case(st[i].marks >= 20 || st[i].first >= 8, srcs[i])
 		r.Class("kind=" + kind)
 		r.Add("marks_compared", int64(st[i].marks))
+		r.Add("first_call_marks_compared", int64(st[i].first))
+		r.Add("later_call_marks_skipped", int64(st[i].later))
 		if i == 0 {
 			r.Sample(srcs[i])
 		}
@@ -214,7 +242,15 @@ func handle(t *testing.T, kind string, srcs []string, vs []*vk.Verdict, st []sta
 			r.Infra("%s", v.Detail)
 			t.Errorf("generator bug: %s", v.Detail)
 			continue
-		case "does-not-compile", "behaviour-differs":
+		case "does-not-compile":
+			if kind == "sugar" { // every sugar shape compiles (C02 shows it): a rejection here is a harness bug
+				r.Infra("sugar program does not compile: %s", v.Detail)
+				t.Errorf("sugar program does not compile: %s", v.Detail)
+				continue
+			}
+			r.Rejected(v.Class)
+			continue
+		case "behaviour-differs":
 			// not this property's business (C01/C02/C06 decide those); counted so that it is visible
 			r.Rejected(v.Class)
 			continue
